@@ -351,14 +351,15 @@ macro_rules! impl_dual_num_float {
             }
             fn sph_j0(&self) -> Self {
                 if self.abs() < <$float>::EPSILON {
-                    1.0 - self * self / 6.0
+                    let s2 = self * self;
+                    1.0 - s2 / 6.0 + s2 * s2 / 120.0
                 } else {
                     self.sin() / self
                 }
             }
             fn sph_j1(&self) -> Self {
                 if self.abs() < <$float>::EPSILON {
-                    self / 3.0
+                    self / 3.0 - self * self * self / 30.0
                 } else {
                     let sc = self.sin_cos();
                     let rec = self.recip();
@@ -367,7 +368,8 @@ macro_rules! impl_dual_num_float {
             }
             fn sph_j2(&self) -> Self {
                 if self.abs() < <$float>::EPSILON {
-                    self * self / 15.0
+                    let s2 = self * self;
+                    s2 / 15.0 - s2 * s2 / 210.0
                 } else {
                     let sc = self.sin_cos();
                     let s2 = self * self;
